@@ -14,12 +14,13 @@ CLAIM = dict(
           "transpose (default, explicit, negative axes) produces NumPy's shape and reads at every index the element NumPy reads, "
           "is a bijection of the index sets (Permutation of the index enumerations), transposing by p and then by the inverse of "
           "p and default-transposing twice restore shape and every index; swapaxes is NumPy's swap and a transpose by a "
-          "permutation; flip with non-negative axes reads NumPy's element and flipping twice is the identity; squeeze after "
+          "permutation; flip (None, one axis, an axis list; negative axes normalised as in NumPy) reads NumPy's element and flipping twice is the identity; squeeze after "
           "expand_dims restores a unit-free shape and every index; every index map stays inside the source. "
           "PARTIAL: moveaxis (single axes and axis lists) is proved for sources of dimension <= 5 (any extents) by a kernel "
           "sweep of the finite argument space; above that it is corresponded only. "
-          "REFUTED (listed findings): flip does not normalise a negative axis; a 0-d result (squeeze of an all-ones shape, "
-          "reshape to ()) comes back as Nothing. "
+          "REFUTED (listed finding): a 0-d result (squeeze of an all-ones shape, reshape to ()) comes back as Nothing. "
+          "(flip with a negative axis used to be a no-op; repaired by the fix: commit 'flip normalises a negative axis', "
+          "model and theorem follow the repaired code.) "
           "Tied to the C++ by running the index functions on 6 container kinds, the views on run-time shaped arrays with run-time "
           "and compile-time-constant arguments and the eager array:: versions, comparing shape and every element."),
     ref="5.3", technique="Coq proof (list induction, nth-extensionality, C01 round trips, one finite vm_compute sweep for moveaxis) + differential correspondence with the extracted model",
@@ -33,10 +34,10 @@ RULE = ("all source shapes dim 1..4 extents 1..3 (quick; thorough: extents 1..4)
 THEOREM_STATUS = {
     "proved": ["C03_reshape_shape", "C03_reshape_C_order", "C03_flatten", "C03_transpose_shape", "C03_transpose_element",
                "C03_transpose_bijection", "C03_transpose_inverse", "C03_transpose_default_involutive", "C03_swapaxes",
-               "C03_expand_dims", "C03_squeeze", "C03_atleast_nd", "C03_flip_on_domain", "C03_flip_flip",
+               "C03_expand_dims", "C03_squeeze", "C03_atleast_nd", "C03_flip", "C03_flip_flip",
                "C03_squeeze_expand_dims", "C03_index_maps_in_bounds"],
     "partial": ["C03_moveaxis_upto_dim5_partial"],
-    "refuted": ["C03_flip_negative_axis_refuted", "C03_zero_dim_result_refuted"]}
+    "refuted": ["C03_zero_dim_result_refuted"]}
 ASSUMPTIONS = ["extents are positive and element counts stay below 2^64 (size_t products in shape_reshape)",
                "0-d sources cannot be built as run-time shaped ndarray_t and are not explored",
                "atleast_nd is compared with numpy.array(a, ndmin=nd) (= atleast_1d / atleast_2d for nd <= 2); NumPy has no atleast_nd",
@@ -186,7 +187,7 @@ def gen_cases(rng, tier):
         add("flip", "flip %s N" % A(s))
         if rng.random() < 0.3: add("laws", "flip2 %s N" % A(s))
         for a in range(-n, n):
-            st = "flip" if a >= 0 else "flip_negative"
+            st = "flip" if a >= 0 else "flip_negative_axis"
             add(st, "flip %s I:%d" % (A(s), a))
             r = rng.random()
             if r < 0.15: add(st, "flip_eval %s I:%d" % (A(s), a))
@@ -199,9 +200,12 @@ def gen_cases(rng, tier):
                     add("flip", "flip %s %s" % (A(s), L(ax)))
                     if rng.random() < 0.2: add("flip", "flip_slices I:%d %s" % (n, L(ax)))
                     if rng.random() < 0.15: add("laws", "flip2 %s %s" % (A(s), L(ax)))
-                if rng.random() < 0.15:
+                if rng.random() < 0.3:
                     sg = signed(ax, n, rng)
-                    add("flip" if min(sg) >= 0 else "flip_negative", "flip %s %s" % (A(s), L(sg)))
+                    st = "flip" if min(sg) >= 0 else "flip_negative_axis"
+                    add(st, "flip %s %s" % (A(s), L(sg)))
+                    if rng.random() < 0.3: add(st, "flip_slices I:%d %s" % (n, L(sg)))
+                    if rng.random() < 0.2: add("laws", "flip2 %s %s" % (A(s), L(sg)))
     # ---------------- normalize_axis
     for n in range(1, 6):
         for a in range(-n - 2, n + 2):
@@ -225,7 +229,7 @@ def gen_cases(rng, tier):
         add("large", "moveaxis %s I:%d I:%d" % (A(s), a, b))
         add("large", "swapaxes %s I:%d I:%d" % (A(s), a, b))
         add("large", "expand_dims %s I:%d" % (A(s), rng.randint(-d - 1, d)))
-        add("large", "flip %s I:%d" % (A(s), rng.randint(0, d - 1)))
+        add("large", "flip %s I:%d" % (A(s), rng.randint(-d, d - 1)))
         add("large", "flip %s N" % A(s))
         if any(e > 1 for e in s): add("large", "squeeze %s" % A(s))
         add("large", "atleast %s I:%d" % (A(s), rng.randint(0, 6)))
@@ -263,26 +267,9 @@ def distribution(streams):
     return {"ops": dict(ops), "source_dims": dict(dims)}
 
 
-def _axis_args(line):
-    """integers of the axis argument(s) of a flip case"""
-    toks = line.split(" ")
-    vals = []
-    for t in toks[1:]:
-        if t.startswith("A:"): continue
-        if t.startswith("I:"): vals.append(int(t[2:]))
-        elif t.startswith("L:"): vals += [int(x) for x in t[2:].split(",") if x]
-    return vals
-
-
 def classify(line, impl, spec, model):
     op = line.split(" ")[0]
     same_as_model = " ".join(impl.split()) == " ".join(model.split())
-    if op in ("flip", "flip_eval", "flip_ct", "flip_slices"):
-        toks = line.split(" ")
-        ax = _axis_args(" ".join(toks if op != "flip_slices" else [toks[0]] + toks[2:]))
-        # only when some axis is negative and the C++ does exactly what the model of flip_slices says
-        if any(a < 0 for a in ax) and same_as_model:
-            return "flip_negative_axis_not_normalised"
     if op in ("squeeze", "squeeze_eval", "squeeze_expand", "reshape", "reshape_eval") and impl == "nothing" and same_as_model:
         m = re.match(r"ok\s*;", spec)     # expected result has the empty shape
         if m: return "zero_dim_result_is_nothing"
